@@ -114,8 +114,47 @@ func eachInstr(fn *ssa.Function, anon bool, f func(in *ssa.Function, i ssa.Instr
 	}
 	if anon {
 		for _, a := range fn.AnonFuncs {
-			eachInstr(a, true, f)
+			eachInstrAnon(a, f)
 		}
+		for _, g := range satellitesOf(fn) {
+			eachInstrAnon(g, f)
+		}
+	}
+}
+
+// eachInstrS visits fn's own instructions and those of its satellites (private helpers that exist only for fn):
+// not closures, which may run later or elsewhere.
+func eachInstrS(fn *ssa.Function, f func(in *ssa.Function, i ssa.Instruction)) {
+	eachInstr(fn, false, f)
+	for _, g := range satellitesOf(fn) {
+		for _, b := range g.Blocks {
+			for _, i := range b.Instrs {
+				f(g, i)
+			}
+		}
+	}
+}
+
+// callsInFnS: callsInFn over fn and its satellites.
+func callsInFnS(fn *ssa.Function, target *ssa.Function) []ssa.Instruction {
+	var out []ssa.Instruction
+	eachInstrS(fn, func(_ *ssa.Function, i ssa.Instruction) {
+		if callsFn(i, target) {
+			out = append(out, i)
+		}
+	})
+	return out
+}
+
+// eachInstrAnon visits fn and its nested closures (no satellites: the caller already has the whole region).
+func eachInstrAnon(fn *ssa.Function, f func(in *ssa.Function, i ssa.Instruction)) {
+	for _, b := range fn.Blocks {
+		for _, i := range b.Instrs {
+			f(fn, i)
+		}
+	}
+	for _, a := range fn.AnonFuncs {
+		eachInstrAnon(a, f)
 	}
 }
 
@@ -162,7 +201,11 @@ func (p *Prog) closure(roots []*ssa.Function, depth int, keep func(*ssa.Function
 			for _, i := range b.Instrs {
 				if cc := callCommon(i); cc != nil {
 					if g := cc.StaticCallee(); g != nil {
-						walk(g, d-1)
+						if isSatelliteOf(g, f) {
+							walk(g, d) // a private helper of f is part of f: extracting it must not use up the depth budget
+						} else {
+							walk(g, d-1)
+						}
 					} else if cc.IsInvoke() {
 						for _, g := range p.implementations(cc) {
 							walk(g, d-1)
@@ -351,7 +394,47 @@ func condFacts(b *ssa.BasicBlock) []Fact {
 			}
 		}
 	}
-	return out
+	return append(expandFacts(out), contextFacts(fn)...)
+}
+
+var contextMemo = map[*ssa.Function][]Fact{}
+var contextBusy = map[*ssa.Function]bool{}
+
+// contextFacts: what is known at every call of a private helper holds throughout the helper (facts are about the
+// callers' values). An extracted piece of a function keeps the guards it was written under.
+func contextFacts(fn *ssa.Function) []Fact {
+	if fn.Parent() != nil {
+		return nil
+	}
+	if r, ok := contextMemo[fn]; ok {
+		return r
+	}
+	sites := privateCallSites(fn)
+	if len(sites) == 0 || contextBusy[fn] || len(contextBusy) >= 2 {
+		return nil
+	}
+	contextBusy[fn] = true
+	defer delete(contextBusy, fn)
+	var common []Fact
+	for k, s := range sites {
+		fs := condFacts(s.Block())
+		if k == 0 {
+			common = append(common, fs...)
+			continue
+		}
+		var keep []Fact
+		for _, c := range common {
+			for _, f := range fs {
+				if f == c {
+					keep = append(keep, c)
+					break
+				}
+			}
+		}
+		common = keep
+	}
+	contextMemo[fn] = common
+	return common
 }
 
 // edgeFacts: facts known when control flows along pred -> b (includes facts of pred).
@@ -360,9 +443,9 @@ func edgeFacts(pred, b *ssa.BasicBlock) []Fact {
 	if len(pred.Instrs) > 0 {
 		if iff, ok := pred.Instrs[len(pred.Instrs)-1].(*ssa.If); ok && len(pred.Succs) == 2 && pred.Succs[0] != pred.Succs[1] {
 			if pred.Succs[0] == b {
-				out = append(out, normFact(iff.Cond, true))
+				out = append(out, expandFacts([]Fact{normFact(iff.Cond, true)})...)
 			} else if pred.Succs[1] == b {
-				out = append(out, normFact(iff.Cond, false))
+				out = append(out, expandFacts([]Fact{normFact(iff.Cond, false)})...)
 			}
 		}
 	}
@@ -437,6 +520,7 @@ func existsPath(fn *ssa.Function, from ssa.Instruction, to ssa.Instruction, avoi
 	if len(fn.Blocks) == 0 {
 		return false
 	}
+	avoid = withCallSummaries(fn, avoid)
 	s := start{fn.Blocks[0], 0}
 	if from != nil {
 		s = start{from.Block(), instrIndex(from) + 1}
@@ -619,6 +703,23 @@ func backSlice(v ssa.Value, o SliceOpts) map[ssa.Value]bool {
 							}
 						}
 					})
+				}
+			}
+			// parameter of a private helper reached from inside it: what every caller passes (an extracted piece of a
+			// function reads the same values through its parameters)
+			if len(stack) == 0 && x.Parent().Parent() == nil && depth < 40 {
+				fn := x.Parent()
+				if sites := privateCallSites(fn); len(sites) > 0 && len(sites) <= 4 {
+					for k, prm := range fn.Params {
+						if prm != x {
+							continue
+						}
+						for _, st := range sites {
+							if cc := callCommon(st); cc != nil && k < len(cc.Args) {
+								walk(cc.Args[k], nil, depth+20)
+							}
+						}
+					}
 				}
 			}
 			// map back to the argument at the call on the stack, if we came from there
